@@ -402,4 +402,96 @@ theorem run_near (he : (Transc.eps : K) ≤ 1 / 10) (dbg : Bool) (ops : List Ste
     obtain ⟨p2, h2, hn2⟩ := ih p1 hn1
     exact ⟨p2, by simp [run, h1, h2, bind, Except.bind], hn2⟩
 end SGal3
+
+/-! ## SE2 (complex part = SO2) -/
+namespace SE2
+def dev (X : SE2 K) : K := X.re * X.re + X.im * X.im - 1
+def Near (X : SE2 K) : Prop := |dev X| ≤ Transc.eps
+def rotPart (X : SE2 K) : SO2 K := ⟨X.re, X.im⟩
+
+theorem dev_eq (X : SE2 K) : dev X = SO2.dev (rotPart X) := rfl
+
+/-- the complex part of `SE2.composeRaw` is `SO2.composeRaw` of the complex parts -/
+theorem rotPart_composeRaw (X Y : SE2 K) : rotPart (composeRaw X Y) = SO2.composeRaw (rotPart X) (rotPart Y) := by
+  unfold composeRaw SO2.composeRaw rotPart
+  simp only
+  split <;> rfl
+
+theorem near_composeRaw (he : (Transc.eps : K) ≤ 1 / 10) {X Y : SE2 K} (hX : Near X) (hY : Near Y) :
+    Near (composeRaw X Y) := by
+  unfold Near at *
+  rw [dev_eq, rotPart_composeRaw]
+  exact SO2.near_composeRaw he (X := rotPart X) (Y := rotPart Y) hX hY
+
+theorem near_inverseRaw {X : SE2 K} (hX : Near X) : Near (inverseRaw X) := by
+  unfold Near dev inverseRaw at *
+  simpa using hX
+
+theorem make_ok_of_near (dbg : Bool) {X : SE2 K} (hX : Near X) : make dbg X.x X.y X.re X.im = .ok X := by
+  have := SO2.make_ok_of_near dbg (X := rotPart X) hX
+  unfold SO2.make at this
+  unfold make
+  cases hc : checkUnit dbg (V2.mk X.re X.im).norm with
+  | error e => simp [rotPart, hc, bind, Except.bind] at this
+  | ok u => simp [bind, Except.bind, pure, Except.pure]
+
+inductive Step where
+  | compose (i j dst : ℕ)
+  | inverse (i dst : ℕ)
+
+def step (dbg : Bool) (pool : List (SE2 K)) : Step → Except Err (List (SE2 K))
+  | .compose i j dst =>
+    match pool[i]?, pool[j]? with
+    | some X, some Y => (compose dbg X Y).map fun Z => pool.set dst Z
+    | _, _ => .ok pool
+  | .inverse i dst =>
+    match pool[i]? with
+    | some X => (inverse dbg X).map fun Z => pool.set dst Z
+    | none => .ok pool
+
+def run (dbg : Bool) : List Step → List (SE2 K) → Except Err (List (SE2 K))
+  | [], pool => .ok pool
+  | s :: rest, pool => (step dbg pool s) >>= run dbg rest
+
+theorem step_near (he : (Transc.eps : K) ≤ 1 / 10) (dbg : Bool) (pool : List (SE2 K))
+    (h : ∀ X ∈ pool, Near X) (s : Step) :
+    ∃ pool', step dbg pool s = .ok pool' ∧ ∀ X ∈ pool', Near X := by
+  cases s with
+  | compose i j dst =>
+    rcases hi : pool[i]? with _ | X
+    · exact ⟨pool, by simp [step, hi], h⟩
+    rcases hj : pool[j]? with _ | Y
+    · exact ⟨pool, by simp [step, hi, hj], h⟩
+    · have hZ := near_composeRaw he (h X (List.mem_of_getElem? hi)) (h Y (List.mem_of_getElem? hj))
+      have hok : compose dbg X Y = .ok (composeRaw X Y) := by
+        unfold compose; exact make_ok_of_near dbg hZ
+      refine ⟨pool.set dst (composeRaw X Y), by simp [step, hi, hj, hok, Except.map], ?_⟩
+      intro W hW
+      rcases List.mem_or_eq_of_mem_set hW with hW | hW
+      · exact h W hW
+      · rw [hW]; exact hZ
+  | inverse i dst =>
+    rcases hi : pool[i]? with _ | X
+    · exact ⟨pool, by simp [step, hi], h⟩
+    · have hZ := near_inverseRaw (h X (List.mem_of_getElem? hi))
+      have hok : inverse dbg X = .ok (inverseRaw X) := by
+        unfold inverse; exact make_ok_of_near dbg (X := inverseRaw X) hZ
+      refine ⟨pool.set dst (inverseRaw X), by simp [step, hi, hok, Except.map], ?_⟩
+      intro W hW
+      rcases List.mem_or_eq_of_mem_set hW with hW | hW
+      · exact h W hW
+      · rw [hW]; exact hZ
+
+/-- **SE2, every history of any length**: no exception, complex part within `eps` of unit squared norm. -/
+theorem run_near (he : (Transc.eps : K) ≤ 1 / 10) (dbg : Bool) (ops : List Step) :
+    ∀ pool : List (SE2 K), (∀ X ∈ pool, Near X) →
+      ∃ pool', run dbg ops pool = .ok pool' ∧ ∀ X ∈ pool', Near X := by
+  induction ops with
+  | nil => intro pool h; exact ⟨pool, rfl, h⟩
+  | cons s rest ih =>
+    intro pool h
+    obtain ⟨p1, h1, hn1⟩ := step_near he dbg pool h s
+    obtain ⟨p2, h2, hn2⟩ := ih p1 hn1
+    exact ⟨p2, by simp [run, h1, h2, bind, Except.bind], hn2⟩
+end SE2
 end Manif
